@@ -1,5 +1,47 @@
-Require Import V.Lib.Base V.Lib.Calls V.C02.Model.
+(* C02 - property theorems.  Model: V.C02.Model (SmodelsConvert/SmData call-for-call, SmodelsOutput's acceptance
+   conditions); specification-side definitions: V.C02.Spec; reference semantics: V.C02.Sem. *)
+Require Import V.Lib.Base V.Lib.Calls V.Gen.Consts V.Gen.Consts_C02 V.C02.Model V.C02.Spec V.C02.ProofsMap V.C02.ProofsErr.
 Local Open Scope Z_scope.
-Example c02_smoke : run_case [0; 0; 1; 0; 2; 4; 0; 1; 1; 0; 3] = [1; 0; 20; 1; 2; 20; 1; 4; 0; 1; 2; 0; 20; 2; 10; 1; -1; 3; 20; 2].
-Proof. vm_compute. reflexivity. Qed.
-Print Assumptions c02_smoke.
+
+(* (1) The atom map.  For EVERY call sequence p (any mix of directives, any number of steps, extensions on or off) that the
+   converter processes, provided fewer than 2^28 smodels atoms were handed out (next_ <= 2^smid_bits: the 28-bit smId field
+   has not wrapped):  every image lies in [2, next) and is not the false atom; the map is injective; the auxiliary atoms
+   (results of newAtom(): heads of `aux :- condition` and of split weight rules) lie in [2, next), are pairwise distinct and
+   are no atom's image; and the image of an atom, once defined after any prefix p1 of p (i.e. also in an earlier step),
+   is the same at the end, and auxiliary atoms stay auxiliary. *)
+Theorem c02_map : forall ext p s out,
+  cv_run ext cv0 p = Ok (s, out) -> next s <= 2 ^ smid_bits ->
+  (forall a, img s a <> 0 -> next_start <= img s a < next s /\ img s a <> false_atom) /\
+  (forall a b, img s a <> 0 -> img s a = img s b -> a = b) /\
+  (forall x, In x (auxs s) -> next_start <= x < next s /\ forall a, img s a <> x) /\
+  NoDup (auxs s) /\
+  (forall p1 p2 s1 o1, p = p1 ++ p2 -> cv_run ext cv0 p1 = Ok (s1, o1) ->
+     (forall a, img s1 a <> 0 -> img s a = img s1 a) /\ (forall x, In x (auxs s1) -> In x (auxs s))).
+Proof. exact map_invariant. Qed.
+Print Assumptions c02_map.
+
+Definition demo : list call :=
+  [CInit true; CBegin; CRule 1 [1; 2] []; CWRule 0 [3; 4] 2 [(1, 1); (-2, 2)]; COutput [97] [1]; COutput [98] [1];
+   COutput [99] [1; -2]; CExternal 5 0; CMin 0 [(1, -3); (2, 1)]; CMin 0 [(3, 1)]; CEnd;
+   CBegin; CRule 0 [5] [1]; COutput [100] [5]; CExternal 6 3; CEnd].
+Example c02_map_nonvacuous :
+  exists s out, cv_run true cv0 demo = Ok (s, out) /\ next s <= 2 ^ smid_bits /\ img s 5 <> 0 /\ auxs s <> [].
+Proof. eexists; eexists. split; [vm_compute; reflexivity|]. vm_compute. repeat split; discriminate. Qed.
+
+(* (2) Errors.  For every sequence that follows the AbstractProgram protocol, the conversion to smodels format
+   (converter in front of SmodelsOutput(os, ext, 0)) fails if and only if the program contains a directive smodels cannot
+   carry in that mode: project / assume / theory always; heuristic / edge / an incremental program without the extensions;
+   a weight rule with a negative bound (whose head is not an empty choice); a minimize weight of -2^31.  Otherwise the
+   converter alone never fails and, below the 2^28 bound, the writer accepts every call the converter makes. *)
+Theorem c02_errors : forall ext p, wf_from 0 p = true ->
+  (existsb (unsupported ext) p = true -> exists e, conv_write ext cv0 sw0 p = Err e) /\
+  (existsb (unsupported ext) p = false ->
+     exists s out, cv_run ext cv0 p = Ok (s, out) /\
+       (next s <= 2 ^ smid_bits -> exists w, conv_write ext cv0 sw0 p = Ok (s, w, out))).
+Proof. exact errors_characterised. Qed.
+Print Assumptions c02_errors.
+
+Example c02_errors_nonvacuous :
+  wf_from 0 demo = true /\ existsb (unsupported true) demo = false /\ existsb (unsupported false) demo = true /\
+  (exists s w out, conv_write true cv0 sw0 demo = Ok (s, w, out)) /\ conv_write false cv0 sw0 demo = Err 1.
+Proof. repeat split; try (vm_compute; reflexivity). eexists; eexists; eexists. vm_compute. reflexivity. Qed.
